@@ -151,6 +151,8 @@ FrameChecks(ev, f, a, pre, post, ctx, x, obs, tlo, thi) ==
   /\ Chk("C10", "ias", IsCommB(f) => AdmIas(pre, post.ias, f, ctx, adv), ev, "bds60")
   /\ Chk("C10", "mach", IsCommB(f) => AdmMach(pre, post.mach, f, ctx, adv), ev, "bds60")
   /\ Chk("C10", "vrate", IsCommB(f) => AdmVr(pre, post.vr, f, ctx, adv), ev, "bds60")
+  \* ... and the advertised registers change with a BDS 1,7 report only (not with a DF11 that reports another CA value)
+  /\ Chk("C10", "caps.source", IsCommB(f) \/ AdmCaps(pre, post.caps, f, ctx), ev, "caps")
   /\ Chk("C10", "one.register", IsCommB(f) => OneRegister(pre, post), ev, "two.registers")
   /\ Chk("C11", "one.register", IsCommB(f) => OneRegister(pre, post), ev, "two.registers")
   \* the gate rests on the recorded transponder capability: it changes with DF11 / DF17 only
